@@ -85,14 +85,14 @@ def test_ref():
 # ------------------------------------------------------------------------------------------------
 # transport conformance: the same client program over real TCP and over SimNet
 SCRIPTS = ["write_then_peer_eof", "write_after_peer_reset", "close_while_reading", "refused",
-           "eof_mid_read", "two_writes_then_close"]
+           "eof_mid_read", "two_writes_then_close", "eof_then_reset_then_write"]
 
 
 async def _client(open_conn, script, log, server_ctl):
     try:
         reader, writer = await open_conn()
     except OSError as e:
-        log.append(("connect_error", type(e).__name__))
+        log.append(("connect_error", "OSError" if isinstance(e, OSError) else type(e).__name__))
         return
     log.append(("connected",))
     try:
@@ -112,14 +112,14 @@ async def _client(open_conn, script, log, server_ctl):
             try:
                 await reader.readexactly(4)
             except (asyncio.IncompleteReadError, OSError) as e:
-                log.append(("read_error", type(e).__name__))
+                log.append(("read_error", "OSError" if isinstance(e, OSError) else type(e).__name__))
             log.append(("closing?", writer.is_closing()))
             writer.write(b"x")
             try:
                 await writer.drain()
                 log.append(("drained",))
             except OSError as e:
-                log.append(("drain_error", type(e).__name__))
+                log.append(("drain_error", "OSError" if isinstance(e, OSError) else type(e).__name__))
         elif script == "close_while_reading":
             async def rd():
                 try:
@@ -128,7 +128,7 @@ async def _client(open_conn, script, log, server_ctl):
                 except asyncio.IncompleteReadError as e:
                     log.append(("incomplete", e.partial))
                 except OSError as e:
-                    log.append(("read_oserror", type(e).__name__))
+                    log.append(("read_oserror", "OSError" if isinstance(e, OSError) else type(e).__name__))
             t = asyncio.ensure_future(rd())
             await asyncio.sleep(0)
             writer.close()
@@ -143,6 +143,19 @@ async def _client(open_conn, script, log, server_ctl):
             except asyncio.IncompleteReadError as e:
                 log.append(("incomplete", e.partial))
             log.append(("closing?", writer.is_closing()))
+        elif script == "eof_then_reset_then_write":
+            await server_ctl("eof")
+            data = await reader.read(100)
+            log.append(("read", data))
+            await server_ctl("reset")
+            log.append(("closing?", writer.is_closing()))
+            writer.write(b"x")
+            try:
+                await writer.drain()
+                log.append(("drained",))
+            except OSError as e:
+                log.append(("drain_error", "OSError" if isinstance(e, OSError) else type(e).__name__))
+            log.append(("closing?", writer.is_closing()))
         elif script == "two_writes_then_close":
             writer.write(b"a")
             writer.write(b"b")
@@ -152,7 +165,7 @@ async def _client(open_conn, script, log, server_ctl):
                 await writer.wait_closed()
                 log.append(("wait_closed ok",))
             except OSError as e:
-                log.append(("wait_closed error", type(e).__name__))
+                log.append(("wait_closed error", "OSError" if isinstance(e, OSError) else type(e).__name__))
             log.append(("closing?", writer.is_closing()))
     finally:
         if not writer.is_closing():
@@ -160,7 +173,7 @@ async def _client(open_conn, script, log, server_ctl):
         try:
             await writer.wait_closed()
         except OSError as e:
-            log.append(("final wait_closed error", type(e).__name__))
+            log.append(("final wait_closed error", "OSError" if isinstance(e, OSError) else type(e).__name__))
         log.append(("done",))
 
 
